@@ -120,7 +120,8 @@ theorem C10_alias_exact_scalar (x : Ctx) (td : TypeDef) (sc : ScalarCfg) (hk : t
 
 /-! ### name clash avoidance -/
 
-/-- FULL STATEMENT (false of the code in one corner — see `C10_rename_counterexample`):
+/-- FULL STATEMENT (false of the code in one corner — see `C10_rename_counterexample`; a second corner, shown on the model
+    only, is `C10_namespace_capture_counterexample` in `Props/C10Closed.lean`):
       every identifier of every scalar TypeScript text resolves GLOBALLY in every namespace, and every generated
       reference to schema type U resolves to U's declaration.
     What makes it false: the fresh names `__tmp_<Name>` are not checked against the bag of identifiers, so a scalar
@@ -481,27 +482,43 @@ PROVED since (second stage, `Props/C10Composed.lean` + `Props/C10ComposedChecked
 printed for the resolved document denotes `Ref` over C11's specification-level merge `refMerge src`
 (`C10_from_sources`, per kind `…_object/_input/_enum/_union/_interface/_scalar` with the merged components explicit,
 `C10_sources_types` / `_no_invented_alias`: nothing lost or invented, `C10_sources_print_ok_iff`,
-`C10_sources_schema_metadata`, `C10_from_sources_perm`: the order of the source items is immaterial; the resolvers file:
+`C10_sources_schema_metadata`, `C10_from_sources_perm`: the order of the source items is immaterial as long as the
+extensions of each kind and name keep their relative order (`KeepsExtOrder`); the resolvers file:
 `C10_resolvers_from_sources`, `C10_resolver_result_from_sources`, `C10_resolver_args_from_sources`); and the SCHEMA part of
 `DocOK` is discharged by the schema check (`DocOK_of_checked`, `C10_from_sources_checked`,
 `C10_resolvers_from_sources_checked`): what remains of `DocOK` is exactly the configuration part `CfgOK` below.
 
-Still open:
-* the side condition on configured scalar texts (`DocOK.bagOK`): no identifier of a text starts with `__tmp_`
-  (`C10_rename_counterexample`, open finding `findings/C10-fresh-name-captured.json`) or is one of the printer's own
-  seven identifiers (`__nitrogql_schema`, `__Beautify`, `__SelectionSet`, the four namespace names — second corner,
-  kernel-checked `C10_namespace_capture_counterexample`: text `__OperationOutput.Foo`). Without it the full statement
-  is FALSE of the code; the corners are contrived (the user's text has to mention generated identifiers).
-* `DocOK.parses`: the parse of a scalar text is supplied by the harness (`tsparse::parse_type`; no TypeScript parser in
-  Lean); that it mentions only identifiers of the text and no internal `abs` node is assumed (K compares the trees).
-* (PROVED since, `Props/C10Closed.lean`: the closed form of the RESOLVERS file linked with the schema file —
-  `C10_resolver_args_closed` / `_std`: `Args` = `Ref_ResolverInput(args f)`; `C10_resolver_result_closed`: `Result` = the
-  resolver result reference, `Omit<…, "__typename">` through `stdHook` included; side conditions `ResolversOK`.) Still
-  open there: that `Resolvers[O][f]` IS `__Resolver<O, Args, Context, Result>` with these `Args` / `Result` is the
-  structural theorem `C10_resolvers_exact`; the generic helper types `__Resolver` / `__TypeResolver` themselves (function
-  types, kept as raw text) have no meaning in the value semantics.
-* the model-plugin transforms of the resolvers file ("minus plugin-excluded") are not modelled: the harness calls
-  the printer without plugins.
+Still open (hypotheses no theorem discharges, and what only K/O carry):
+* every theorem here is about the printer MODELS (`Model/SchemaDecls`, `ResolverDecls`, `DeclCfg`, `JsDoc`) and the
+  hand-written semantics `Ts/Sem.lean`; that the models agree with the Rust printers is the K stream only, and `resolve` /
+  `checkSchema` in the composed theorems are the C11 / C05 models.
+* the side condition on configured scalar texts (`DocOK.bagOK` = `CfgOK.bagOK`): no identifier of a text starts with
+  `__tmp_` (`C10_rename_counterexample`, open finding `findings/C10-fresh-name-captured.json`, seen on the real code) or is
+  one of the printer's own seven identifiers (`__nitrogql_schema`, `__Beautify`, `__SelectionSet`, the four namespace
+  names — second corner, `C10_namespace_capture_counterexample`: text `__OperationOutput.Foo`; kernel-checked on the MODEL,
+  not replayed on the real code). Without it the full statement is false; the corners are contrived (the user's text has
+  to mention generated identifiers).
+* `DocOK.parses` = `CfgOK.parses`: the parse of a scalar text is supplied by the harness (`tsparse::parse_type`; no
+  TypeScript parser in Lean); that it mentions only identifiers of the text and no internal `abs` node is assumed (K
+  compares the trees).
+* the SCHEMA part of `DocOK` is a plain hypothesis in `Props/C10Closed.lean` and `Props/C10Composed.lean`; only
+  `Props/C10ComposedChecked.lean` derives it (from `checkSchema R = []`, for user items without built-in positions ++ the
+  CLI's built-ins). That the items are what the schema files say (the parser) is assumed throughout.
+* `kindFits`: the aliases are characterised only for kinds that fit the direction of the target; the top-level
+  representative only for `repTarget`.
+* the RESOLVERS file (closed forms PROVED since in `Props/C10Closed.lean`: `C10_resolver_args_closed` / `_std`: `Args` =
+  `Ref_ResolverInput(args f)`; `C10_resolver_result_closed`: `Result` = the resolver result reference, `Omit<…,
+  "__typename">` through `stdHook` included). Open there: (i) `ResolversOK` is only partly derived from the schema check
+  (`ResolversOK_of_checked`, `C10_cli_resolversOK`): "no type named `Omit`", "only `type` / `interface` definitions carry
+  fields" and "no scalar text applies `Omit<…>`" remain hypotheses, also of `C10_resolvers_from_sources_checked`;
+  (ii) `Args` / `Result` are read at the TOP LEVEL of the resolvers file, and that `Resolvers[O][f]` is
+  `__Resolver<O, Args, Context, Result>` with these `Args` / `Result` is the separate STRUCTURAL theorem
+  `C10_resolvers_exact` / `C10_resolvers_from_sources`: the two are not joined under the binder of `Resolvers<Context>`,
+  and schema types named like the file's other identifiers (`Context`, `Resolvers`, `ResolverOutput`, `Schema`,
+  `GraphQLResolveInfo`) are not excluded by `ResolversOK`; (iii) the generic helper types `__Resolver` / `__TypeResolver`
+  themselves (function types, kept as raw text) have no meaning in the value semantics.
+* the model-plugin transforms of the resolvers file ("minus plugin-excluded") are not modelled and not exercised: the
+  harness calls the printer with an empty plugin list.
 -/
 
 end NitroVerif.Props.C10
